@@ -450,6 +450,45 @@ theorem storage_divides_family (i t : Int) (h : 0 ≤ t)
     i ∣ calcFamilyTime (intervalType i) t :=
   Lemmas.C13.interval_dvd_familyTime (intervalType i) h hg
 
+/-! ## the two variants of the month calculator's slot rule -/
+
+/-- in UTC (and, by translation, in fixed-offset zones) the plain-quotient variant computes the same
+slot as the current `% OneDay` rule for every timestamp against its own family start — every
+theorem above about `calcSlot` holds for both variants -/
+theorem slot_variants_agree (c : Calc) (t i : Int) (h : 0 ≤ t) :
+    calcSlotV .quotient c t (calcFamilyTime c t) i = calcSlot c t (calcFamilyTime c t) i ∧
+    calcSlotV .modDay c t (calcFamilyTime c t) i = calcSlot c t (calcFamilyTime c t) i := by
+  refine ⟨?_, by cases c <;> rfl⟩
+  cases c
+  · rfl
+  · have hc := Lemmas.C13.family_contains .month h
+    rw [Lemmas.C13.month_familyTime h] at hc ⊢
+    rw [Lemmas.C13.month_familyEnd] at hc
+    have hr : 0 ≤ t - t / 86400000 * 86400000 := by omega
+    simp only [calcSlotV, calcSlot, Lemmas.C13.oneDay_val]
+    rw [Int.tmod_eq_emod_of_nonneg hr]
+    have e : (t - t / 86400000 * 86400000) % 86400000 = t - t / 86400000 * 86400000 := by omega
+    rw [e]
+  · rfl
+
+theorem slot_range_variant_current (i f : Int) (q : TimeRange) :
+    calcSlotRangeV .modDay i f q = calcSlotRange i f q := by
+  simp only [calcSlotRangeV, calcSlotRange]
+  cases intervalType i <;> rfl
+
+/-- the repaired (plain-quotient) month rule satisfies the slot statement against ANY base time not
+after the timestamp — whatever the length of the family, hence also on 23- and 25-hour days of a
+DST zone -/
+theorem month_slot_quotient_bound (t base i : Int) (hb : base ≤ t) (hi : 0 < i) :
+    ∃ s, calcSlotV .quotient .month t base i = some s ∧ 0 ≤ s ∧
+      base + s * i ≤ t ∧ t < base + (s + 1) * i := by
+  have hr : 0 ≤ t - base := by omega
+  have hne : i ≠ 0 := by omega
+  refine ⟨(t - base) / i, ?_, Int.ediv_nonneg hr (by omega), ?_, ?_⟩
+  · simp only [calcSlotV, hne, if_false]; rw [Int.tdiv_eq_ediv_of_nonneg hr]
+  · have := Int.ediv_mul_le (t - base) hne; omega
+  · have := Int.lt_ediv_add_one_mul_self (t - base) hi; omega
+
 /-! ## time zones: fixed-offset zones are a translation of the UTC model -/
 
 /-- UTC is the zone with offset 0: the zone-parameterised calculators at offset 0 are the UTC
@@ -591,10 +630,22 @@ theorem query_ladder :
 
 theorem calc_slot (t b i : Int) (hi : i ≠ 0) :
     calcSlot .day t b i = some (C13.dayCalcSlot t b i) ∧
-    calcSlot .month t b i = some (C13.monthCalcSlot t b i) ∧
     calcSlot .year t b i = some (C13.yearCalcSlot t b i) := by
-  simp [calcSlot, hi, C13.dayCalcSlot, C13.monthCalcSlot, C13.yearCalcSlot,
-    Lemmas.C13.oneHour_val, Lemmas.C13.oneDay_val]
+  simp [calcSlot, hi, C13.dayCalcSlot, C13.yearCalcSlot, Lemmas.C13.oneHour_val]
+
+/-- the month calculator's slot formula in the source is the model's, in whichever of the two known
+variants the source text selects (the proof goes through for the current code and for
+`fixes/C13-month-slot-quotient.patch`) -/
+theorem calc_slot_month (v : SlotVariant) (hv : slotVariantOf C13.monthCalcSlotExpr = some v)
+    (t b i : Int) (hi : i ≠ 0) :
+    calcSlotV v .month t b i = some (C13.monthCalcSlot t b i) := by
+  cases v <;>
+    first
+    | (exfalso; revert hv; decide)
+    | simp [calcSlotV, calcSlot, hi, C13.monthCalcSlot, Lemmas.C13.oneDay_val]
+
+/-- the source text selects a known variant -/
+theorem month_slot_variant_known : (slotVariantOf C13.monthCalcSlotExpr).isSome = true := by decide
 
 theorem day_calculator (t seg f s : Int) :
     calcFamily .day t seg = C13.dayCalcFamily t seg ∧
@@ -741,6 +792,12 @@ theorem dst_25h_day_slot_wraps :
     calcFamilyEndTimeZ Zone.newYorkFall2024 .month 1730606400000 = 1730696399999 ∧
     calcSlot .month 1730694600000 1730606400000 300000 = some 6 ∧
     ¬ (1730694600000 < 1730606400000 + (6 + 1) * 300000) := by decide
+
+/-- the same instant under the repaired rule: slot 294, `294·5m ≤ t − start < 295·5m` -/
+theorem dst_25h_day_slot_quotient_ok :
+    calcSlotV .quotient .month 1730694600000 1730606400000 300000 = some 294 ∧
+    1730606400000 + 294 * 300000 ≤ (1730694600000 : Int) ∧
+    (1730694600000 : Int) < 1730606400000 + (294 + 1) * 300000 := by decide
 
 end Neg
 
